@@ -96,18 +96,25 @@ check("C11", "model_checking",
 
 HOOK_COMMITS += ["075278ac"]
 
+HOOK_COMMITS += ["0c8499a8"]
+
 check("C17", "model_checking",
-      "Ceremony.tla transcribes the status decision function over the complete abstract input space (186 624 inputs: previous status, "
+      "(a) Ceremony.tla transcribes the status decision function over the complete abstract input space (186 624 inputs: previous status, "
       "required flips, missed, qualification flags, score classes as float32 bit patterns, flip classes, upgrade flags); TLC checks the "
-      "property's rules on the model (absent or flip-less identities are never promoted nor left validated, invitations are terminated, "
-      "killed / undefined never come back) and exports the table; the REAL determineNewIdentityState is called at boundary "
-      "representatives of every class (thresholds exactly, one and two ulps around, ceremony-producible neighbours) plus seeded random "
-      "calls; TLC validates the recorded verdicts: property clauses on the OBSERVED status and equality with the table.",
-      "part (a) only: the decision table. Part (b) of the property (two nodes / restarted / cached re-evaluation compute the same epoch "
-      "result) is exercised for the cached-evaluation branch of ApplyNewEpoch by C01's replicas (same injected per-identity values, "
-      "restart / rollback / speculation histories), not with scripted answers; how ApplyNewEpoch derives the decision arguments from "
-      "answers is outside this check",
-      "TLA+ transcription of the decision table (complete input space) + real function at class boundaries + TLC trace validation",
+      "property's rules on the model and exports the table; the REAL determineNewIdentityState is called at boundary representatives of "
+      "every class plus seeded random calls; TLC validates the recorded verdicts (property clauses on the OBSERVED status, equality with "
+      "the table). (b) CeremonyRun.tla models one node going through a ceremony (Add per block slot incl. persist / lottery / "
+      "ApplyNewEpoch + completeEpoch, Restart = restoreState, Eval = validate / propose without insertion into the per-height cache, "
+      "Switch = ResetTo + fork b, Rollback of the epoch block) with SameResult / PersistComplete / StoreMatchesChain; TLC exports every "
+      "complete behaviour; a stratified sample is replayed literally on REAL nodes with a real ValidationCeremony over seeded populations "
+      "(good, absent, short-only, no-hash, bad-salt, wrong, reporter, latecomer ... participants; 6 block layouts of the same tx set; "
+      "live vs late nodes) and TLC validates the recorded epoch results (SameResult, AbsentNotValidated, InviteKilled, DeadStaysDead).",
+      "(a) exhaustive over the abstract table; (b) quick: 27k states, ~11k behaviours exported, ~230 node behaviours on real code in 4 "
+      "populations; thorough: 168k states, ~5800 node behaviours, 16 populations; one shard, <= 12 identities; restarts / forks at block "
+      "boundaries only; RPC entry points and flip/key gossip not driven (transactions signed with the repository's encoders); blocks "
+      "assembled through VerifCraftBlock; one finding fixed (stale epoch cache after a fork switch), one known (epoch block rolled back)",
+      "TLA+ decision table (complete input space) + TLA+ ceremony-run model with TLC-exported behaviours replayed on the real "
+      "ValidationCeremony + TLC trace validation",
       "DESIGN.md#c17")
 
 check("C19", "model_checking",
